@@ -139,9 +139,7 @@ func tryStartBinary(id int, bridges []vBridge, allowed, presumed string, o vBinO
 	if bridges != nil {
 		var sb strings.Builder
 		for _, br := range bridges {
-			j, _ := json.Marshal(map[string]string{"displayName": "b", "webSocketAddress": br.URL, "fingerprint": br.FP})
-			sb.Write(j)
-			sb.WriteString("\n")
+			sb.Write(br.line())
 		}
 		bl := filepath.Join(dir, "bridges.jsonl")
 		if err := ioutil.WriteFile(bl, []byte(sb.String()), 0600); err != nil {
